@@ -118,6 +118,11 @@ func IsConst(v ssa.Value, obj *types.Const) bool {
 		}
 		c = c2
 	}
+	// values of different kinds are never equal (constant.Compare is only defined within a kind)
+	ck, ok2 := c.Value.Kind(), obj.Val().Kind()
+	if (ck == constant.String) != (ok2 == constant.String) || (ck == constant.Bool) != (ok2 == constant.Bool) {
+		return false
+	}
 	if !constant.Compare(c.Value, token.EQL, obj.Val()) {
 		return false
 	}
